@@ -36,6 +36,29 @@ pub const FAULT_KINDS: [io::ErrorKind; 20] = [
     io::ErrorKind::InvalidFilename,
 ];
 
+/// Payload of the scripted permanent error: lets a check verify that the error a parser ends with IS
+/// the source's error (same object: kind, message and payload), not a re-creation of it.
+#[derive(Debug)]
+pub struct FaultPayload;
+
+impl std::fmt::Display for FaultPayload {
+    fn fmt(&self, f: &mut std::fmt::Formatter<'_>) -> std::fmt::Result {
+        write!(f, "scripted source failure")
+    }
+}
+
+impl std::error::Error for FaultPayload {}
+
+/// Rendering of an I/O error a subject ended with: kind / payload marker / message.
+pub fn render_io_error(e: &io::Error) -> String {
+    let payload = match e.get_ref() {
+        None => "no-payload",
+        Some(p) if p.is::<FaultPayload>() => "scripted-payload",
+        Some(_) => "other-payload",
+    };
+    format!("{:?}/{payload}/{e}", e.kind())
+}
+
 #[derive(Clone, Debug, PartialEq, Eq)]
 pub enum Ans {
     Deliver(usize),
@@ -173,7 +196,7 @@ impl Read for ScriptedSource<'_> {
         if fit == 0 {
             if self.cfg.fault_at.map_or(false, |k| k <= self.cfg.data.len()) {
                 st.err_returned += 1;
-                return Err(io::Error::new(FAULT_KINDS[self.cfg.fault_kind % FAULT_KINDS.len()], "scripted source failure"));
+                return Err(io::Error::new(FAULT_KINDS[self.cfg.fault_kind % FAULT_KINDS.len()], FaultPayload));
             }
             st.eof_returned += 1;
             return Ok(0);
